@@ -138,11 +138,24 @@ class SymRandom(random.Random):
         v = 0
       else:
         v = self.script[self._n] % cap if cap > 0 else 0
-    else:
+    elif is_tracing():
       with NoTracing():
         v = proxy_for_type(int, f'rnd{self._n}')
       if not (0 <= v < cap):
         raise IgnoreAttempt('rng draw out of range')
+    else:
+      # Called from natively executing code (inside `untraced()`): the outcome is still a solver
+      # decision -- a fresh symbolic int, made concrete by branching on each admissible value.
+      v = proxy_for_type(int, f'rnd{self._n}')
+      with ResumedTracing():
+        picked = None
+        for c in range(cap):
+          if v == c:
+            picked = c
+            break
+        if picked is None:
+          raise IgnoreAttempt('rng draw out of range')
+      v = picked
     self._n += 1
     self.draws.append(v)
     return v
